@@ -1,12 +1,17 @@
 (* C18 — duplicate-surface removal never changes any cell's region
-   (MCNP_Problem.remove_duplicate_surfaces and what it calls; model: Model/Dedup.v).
+   (MCNP_Problem.remove_duplicate_surfaces and what it calls, at /repo HEAD; model: Model/Dedup.v, Part 1).
    Headline theorems only; the proofs are in Proofs/DedupProofs.v.
 
    Reading guide.  [scan tol surfs = Ok (del, m)]: the first loop of the method ended with the set [to_delete] = del
    and the dict [matching_map] = m (a later match of the same dead surface overwrites the earlier entry, as in the
-   code); [dedup tol P = Ok P']: the whole call returned and left the problem P'.  A statement that is false of the
-   current code has a [_refuted] theorem (a concrete problem, replayed on the real code by the harness as a finding)
-   and a [_partial] theorem under the side condition that excludes the defect. *)
+   code); [dedup tol P = Ok P']: the whole call returned and left the problem P'.
+   Hypotheses that appear below, all checked by the harness on every real case before the call:
+     wf P           surface numbers are unique                                   (property C06)
+     class_ok s     the Python class and the number of constants are the ones the mnemonic fixes (constructors)
+     disp_uniform   displacement vectors have the same length                    (always three)
+     links P        cell.surfaces covers the leaves of the cell's geometry       (kept by every call: C18_repeatable)
+   Until commits d09ab94, f2650a0 and 983bf94 the code failed sentences 2, 5, 6 and 7 below; the witnesses are kept as
+   regression lemmas in Proofs/DedupProofs.v (old_*_refuted) and as replays in corpus/C18/. *)
 From Coq Require Import List String Ascii ZArith QArith Qabs Bool.
 From MPV Require Import Model.Wire Model.Dedup Proofs.DedupProofs.
 Import ListNotations.
@@ -25,54 +30,30 @@ Proof. exact map_justified. Qed.
 Print Assumptions C18_map_justified.
 
 (* ------------------------------------------------------------------ 2. only true duplicates are merged *)
-(* [true_dup tol a b]: same mnemonic, same reflecting / white flags, transforms both absent or with equal flags and
-   all entries within tol (an absent rotation being the identity), neither surface periodic *now*, same number of
-   constants, all within tol.
-   False of the current code in three independent ways: *)
-Theorem C18_only_true_duplicates_refuted_bc : exists tol P sd ss,
-  wf P /\ Forall class_ok (p_surfs P) /\ Forall periodic_visible (p_surfs P) /\ tr_uniform (p_surfs P) /\
-  merged_pair tol P sd ss /\ s_refl ss <> s_refl sd /\ ~ true_dup tol ss sd.
-Proof. exact only_true_duplicates_refuted_bc. Qed.
-Print Assumptions C18_only_true_duplicates_refuted_bc.
-
-Theorem C18_only_true_duplicates_refuted_periodic : exists tol P sd ss,
-  wf P /\ Forall class_ok (p_surfs P) /\ bc_uniform (p_surfs P) /\ tr_uniform (p_surfs P) /\
-  (forall s, In s (p_surfs P) -> in_sync (p_surfs P) (p_trs P) s) /\
-  merged_pair tol P sd ss /\ s_perptr sd <> 0 /\ ~ true_dup tol ss sd.
-Proof. exact only_true_duplicates_refuted_periodic. Qed.
-Print Assumptions C18_only_true_duplicates_refuted_periodic.
-
-Theorem C18_only_true_duplicates_refuted_rotation : exists tol P sd ss,
-  wf P /\ Forall class_ok (p_surfs P) /\ bc_uniform (p_surfs P) /\ Forall periodic_visible (p_surfs P) /\
-  merged_pair tol P sd ss /\ ~ trdata_same tol (s_tr ss) (s_tr sd) /\ ~ true_dup tol ss sd.
-Proof. exact only_true_duplicates_refuted_rotation. Qed.
-Print Assumptions C18_only_true_duplicates_refuted_rotation.
-
-(* ... and true under exactly the three side conditions the witnesses violate one at a time:
-   bc_uniform (same-mnemonic surfaces have the same boundary condition), periodic_visible (a periodic surface is of
-   a class whose test looks at it), tr_uniform (transforms have rotation matrices of the same length) *)
-Theorem C18_only_true_duplicates_partial : forall tol P del m,
-  wf P -> Forall class_ok (p_surfs P) ->
-  bc_uniform (p_surfs P) -> Forall periodic_visible (p_surfs P) -> tr_uniform (p_surfs P) ->
+(* [true_dup tol a b]: same mnemonic, same reflecting / white flags, transforms both absent or with equal degree and
+   direction flags and all entries within tol (an absent rotation being the identity), neither surface periodic *now*
+   (the live periodic_surface), same number of constants, all within tol *)
+Theorem C18_only_true_duplicates : forall tol P del m,
+  wf P -> Forall class_ok (p_surfs P) -> disp_uniform (p_surfs P) ->
   scan tol (p_surfs P) = Ok (del, m) ->
   forall d s sd ss, lookup d m = Some s ->
     In sd (p_surfs P) -> In ss (p_surfs P) -> s_num sd = d -> s_num ss = s -> true_dup tol ss sd.
-Proof. exact only_true_duplicates_partial. Qed.
-Print Assumptions C18_only_true_duplicates_partial.
+Proof. exact only_true_duplicates. Qed.
+Print Assumptions C18_only_true_duplicates.
 
-Example C18_only_true_duplicates_nonvacuous :
-  wf ex_prob /\ Forall class_ok (p_surfs ex_prob) /\ bc_uniform (p_surfs ex_prob) /\
-  Forall periodic_visible (p_surfs ex_prob) /\ tr_uniform (p_surfs ex_prob) /\
-  scan tol4 (p_surfs ex_prob) = Ok ([2; 5; 9; 11], [(2, 3); (5, 4); (9, 8); (11, 10)]).
-Proof.
-  exact (conj ex_wf (conj ex_class_ok (conj ex_bc (conj ex_periodic_visible (conj ex_tr_uniform ex_scan))))).
-Qed.
-Print Assumptions C18_only_true_duplicates_nonvacuous.
+(* the test is symmetric on the members of a problem, so no survivor is ever removed itself and none is a key of the
+   map: chains a~b~c without a~c need no second pass *)
+Theorem C18_survivors_survive : forall tol P del m,
+  wf P -> Forall class_ok (p_surfs P) -> disp_uniform (p_surfs P) ->
+  scan tol (p_surfs P) = Ok (del, m) ->
+  forall d s, lookup d m = Some s -> ~ In s del /\ lookup s m = None.
+Proof. exact survivors_survive. Qed.
+Print Assumptions C18_survivors_survive.
 
 (* ------------------------------------------------------------------ 3. every cell, structurally *)
 (* each cell keeps its number; its geometry is the old tree with leaves renamed by a function that fixes every
    number that is not a key of the map, sends a key to itself or to its map entry, and sends every key that is in
-   cell.surfaces to its map entry: operators, parentheses-free shape and senses are those of the old tree *)
+   cell.surfaces to its map entry *)
 Theorem C18_cells_structure : forall tol P P' del m,
   scan tol (p_surfs P) = Ok (del, m) -> dedup tol P = Ok P' ->
   Forall2 (fun c c' =>
@@ -86,18 +67,19 @@ Proof. exact cells_structure. Qed.
 Print Assumptions C18_cells_structure.
 
 (* ------------------------------------------------------------------ 4. the region of every cell is unchanged *)
-(* for every assignment of a side to every surface that gives a removed surface and its survivor the same side
-   (and every assignment to complemented cells), the Boolean function of each cell is the same before and after *)
+(* operators and senses are those of the old tree, and for every assignment of a side to every surface that gives a
+   removed surface and its survivor the same side (and every assignment to complemented cells) the Boolean function
+   of each cell is the same before and after; no side condition at all *)
 Theorem C18_region : forall tol P P' del m,
   scan tol (p_surfs P) = Ok (del, m) -> dedup tol P = Ok P' ->
   Forall2 (fun c c' =>
-             c_num c' = c_num c /\
+             c_num c' = c_num c /\ shape (c_geom c') = shape (c_geom c) /\
              forall es ec, identifies m es -> region es ec (c_geom c') = region es ec (c_geom c))
           (p_cells P) (p_cells P').
 Proof. exact region_preserved. Qed.
 Print Assumptions C18_region.
 
-(* senses and operators never change; a cell none of whose leaves is removed is not changed at all *)
+(* a cell none of whose leaves is removed is not changed at all *)
 Theorem C18_senses : forall tol P P' del m,
   scan tol (p_surfs P) = Ok (del, m) -> dedup tol P = Ok P' ->
   Forall2 (fun c c' =>
@@ -107,194 +89,85 @@ Theorem C18_senses : forall tol P P' del m,
 Proof. exact senses_preserved. Qed.
 Print Assumptions C18_senses.
 
-Example C18_region_nonvacuous :
-  scan tol4 (p_surfs ex_prob) = Ok (ex_del, ex_map) /\
-  (dedup tol4 ex_prob = Ok ex_after /\
-   map s_num (p_surfs ex_after) = [1; 3; 4; 6; 7; 8; 10; 12] /\ p_cells ex_after = ex_after_cells) /\
-  identifies ex_map ex_es /\
-  map (fun c => region ex_es (fun _ => false) (c_geom c)) ex_cells = [true; false; true; false] /\
-  map (fun c => region ex_es (fun _ => false) (c_geom c)) ex_after_cells = [true; false; true; false].
-Proof. exact (conj ex_scan (conj ex_dedup (conj ex_identifies ex_regions))). Qed.
-Print Assumptions C18_region_nonvacuous.
-
-(* ------------------------------------------------------------------ 5. the collection *)
-(* no member of the collection after the call has a removed number; the surviving numbers are the old numbers minus
-   the removed ones, in the old order *)
-Theorem C18_removed_are_gone : forall tol P P' del m,
+(* ------------------------------------------------------------------ 5. surfaces that are not duplicates are untouched *)
+(* the collection after the call is the old one without the removed members, in the old order; a surviving surface
+   is the very same record unless its periodic partner was merged away, in which case only its periodic pointer
+   moved, to the partner's survivor *)
+Theorem C18_surfaces : forall tol P P' del m,
   wf P -> scan tol (p_surfs P) = Ok (del, m) -> dedup tol P = Ok P' ->
-  (forall s', In s' (p_surfs P') -> ~ In (s_num s') del) /\
-  map s_num (p_surfs P') = filter (fun n => negb (memZ n del)) (map s_num (p_surfs P)).
-Proof. exact removed_are_gone. Qed.
-Print Assumptions C18_removed_are_gone.
-
-(* surfaces that are not duplicates are untouched: false (the call re-runs the pointer resolution of the read:
-   a transform or periodic surface assigned or deleted since then is reverted, even when nothing is merged) *)
-Theorem C18_survivors_untouched_refuted : exists tol P P' m,
-  wf P /\ Forall class_ok (p_surfs P) /\ scan tol (p_surfs P) = Ok ([], m) /\ dedup tol P = Ok P' /\
-  p_surfs P' <> p_surfs P.
-Proof. exact survivors_untouched_refuted. Qed.
-Print Assumptions C18_survivors_untouched_refuted.
-
-(* ... true when the numbers remembered from the read still describe the pointers *)
-Theorem C18_survivors_untouched_partial : forall tol P P' del m,
-  wf P -> (forall s, In s (p_surfs P) -> in_sync (p_surfs P) (p_trs P) s) ->
-  scan tol (p_surfs P) = Ok (del, m) -> dedup tol P = Ok P' ->
-  p_surfs P' = filter (fun s => negb (memZ (s_num s) del)) (p_surfs P).
-Proof. exact survivors_untouched. Qed.
-Print Assumptions C18_survivors_untouched_partial.
-
-Example C18_survivors_untouched_nonvacuous :
-  wf ex_prob /\ (forall s, In s (p_surfs ex_prob) -> in_sync (p_surfs ex_prob) (p_trs ex_prob) s).
-Proof. exact (conj ex_wf ex_in_sync). Qed.
-Print Assumptions C18_survivors_untouched_nonvacuous.
-
-(* ------------------------------------------------------------------ 6. no reference to a removed surface *)
-(* false: the test of the code is not symmetric, so a survivor can be removed later and the one-step re-pointing
-   leaves a leaf on a surface that is no longer in the problem *)
-Theorem C18_no_dangling_leaf_refuted : exists tol P P' del m c' n,
-  wf P /\ links P /\ Forall class_ok (p_surfs P) /\ planes_old_nonperiodic (p_surfs P) /\
-  scan tol (p_surfs P) = Ok (del, m) /\ dedup tol P = Ok P' /\
-  In c' (p_cells P') /\ In n (leaf_surfs (c_geom c')) /\ In n del /\ ~ In n (map s_num (p_surfs P')).
-Proof. exact no_dangling_leaf_refuted. Qed.
-Print Assumptions C18_no_dangling_leaf_refuted.
-
-(* ... true whenever the test is symmetric on the members of the problem (chains a~b~c without a~c included) *)
-Theorem C18_no_dangling_leaf_partial : forall tol P P' del m,
-  wf P -> links P -> cand_sym tol (p_surfs P) ->
-  scan tol (p_surfs P) = Ok (del, m) -> dedup tol P = Ok P' ->
-  forall c', In c' (p_cells P') -> forall n, In n (leaf_surfs (c_geom c')) -> ~ In n del.
-Proof. exact no_dangling_leaf. Qed.
-Print Assumptions C18_no_dangling_leaf_partial.
-
-(* with a symmetric test no survivor is itself removed *)
-Theorem C18_survivors_survive_partial : forall tol P del m,
-  wf P -> cand_sym tol (p_surfs P) -> scan tol (p_surfs P) = Ok (del, m) ->
-  forall d s, lookup d m = Some s -> ~ In s del.
-Proof. exact survivors_survive. Qed.
-Print Assumptions C18_survivors_survive_partial.
-
-(* the test is symmetric when no plane / off-axis cylinder was read as periodic and all rotation matrices have
-   the same length *)
-Theorem C18_symmetric_test_partial : forall tol all,
-  Forall class_ok all -> planes_old_nonperiodic all -> tr_uniform all -> cand_sym tol all.
-Proof. exact cand_sym_struct. Qed.
-Print Assumptions C18_symmetric_test_partial.
-
-Example C18_no_dangling_leaf_nonvacuous :
-  wf ex_prob /\ links ex_prob /\ Forall class_ok (p_surfs ex_prob) /\
-  planes_old_nonperiodic (p_surfs ex_prob) /\ tr_uniform (p_surfs ex_prob).
-Proof. exact (conj ex_wf (conj ex_links (conj ex_class_ok (conj ex_planes ex_tr_uniform)))). Qed.
-Print Assumptions C18_no_dangling_leaf_nonvacuous.
-
-(* ... and false for a second call: the first call leaves every cell.surfaces empty (links no longer holds), so
-   the second call re-points nothing and still removes the duplicates *)
-Theorem C18_second_call_refuted : exists P P1 P2 c' n,
-  wf P /\ links P /\ Forall class_ok (p_surfs P) /\ planes_old_nonperiodic (p_surfs P) /\ tr_uniform (p_surfs P) /\
-  (forall s, In s (p_surfs P) -> in_sync (p_surfs P) (p_trs P) s) /\
-  dedup tol9 P = Ok P1 /\ p_surfs P1 = p_surfs P /\ ~ links P1 /\
-  dedup tol4 P1 = Ok P2 /\
-  In c' (p_cells P2) /\ In n (leaf_surfs (c_geom c')) /\ ~ In n (map s_num (p_surfs P2)).
-Proof. exact second_call_refuted. Qed.
-Print Assumptions C18_second_call_refuted.
-
-(* the surface a periodic surface points to can be removed *)
-Theorem C18_no_dangling_periodic_refuted : exists tol P P' s',
-  wf P /\ Forall class_ok (p_surfs P) /\ (forall s, In s (p_surfs P) -> in_sync (p_surfs P) (p_trs P) s) /\
-  dedup tol P = Ok P' /\ In s' (p_surfs P') /\ s_perptr s' <> 0 /\ ~ In (s_perptr s') (map s_num (p_surfs P')).
-Proof. exact no_dangling_periodic_refuted. Qed.
-Print Assumptions C18_no_dangling_periodic_refuted.
-
-Theorem C18_no_dangling_periodic_partial : forall tol P P',
-  (forall s, In s (p_surfs P) -> s_oldper s = 0 /\ s_perptr s = 0) ->
-  dedup tol P = Ok P' -> forall s', In s' (p_surfs P') -> s_perptr s' = 0.
-Proof. exact no_dangling_periodic_partial. Qed.
-Print Assumptions C18_no_dangling_periodic_partial.
-
-(* ------------------------------------------------------------------ 7. the call returns *)
-(* false: Transform.equivalent indexes the other rotation matrix with the indices of its own *)
-Theorem C18_completes_refuted : exists tol P,
-  wf P /\ Forall class_ok (p_surfs P) /\ (forall s, In s (p_surfs P) -> in_sync (p_surfs P) (p_trs P) s) /\
-  dedup tol P = Err IndexError.
-Proof. exact dedup_completes_refuted. Qed.
-Print Assumptions C18_completes_refuted.
-
-Theorem C18_completes_partial : forall tol P,
-  tr_uniform (p_surfs P) -> (forall s, In s (p_surfs P) -> in_sync (p_surfs P) (p_trs P) s) ->
-  exists P', dedup tol P = Ok P'.
-Proof. exact dedup_completes. Qed.
-Print Assumptions C18_completes_partial.
-
-(* a VOL, U, LAT or FILL card in the data block: the call always raises (after the cells were re-pointed, before any
-   surface is removed), whatever the surfaces are *)
-Theorem C18_completes_refuted_cellmod : forall tol P r,
-  scan tol (p_surfs P) = Ok r -> dedup_call true tol P = Err MalformedInputError.
-Proof. exact cellmod_always_fails. Qed.
-Print Assumptions C18_completes_refuted_cellmod.
-
-(* without such a card the call is [dedup], the function all other theorems are about *)
-Theorem C18_call_without_cellmod : forall tol P, dedup_call false tol P = dedup tol P.
-Proof. exact no_cellmod_same. Qed.
-Print Assumptions C18_call_without_cellmod.
-
-(* ------------------------------------------------------------------ 8. the code with proposed_fixes/C18-1..3 *)
-(* Model/Dedup.v, suffix _fx: find_duplicate_surfaces compare the boundary condition and both surfaces' live
-   periodicity (C18-1), Transform.equivalent treats rotation matrices of different length as different (C18-2),
-   the call does not re-run the pointer resolution and re-points periodic partners through the map (C18-3).
-   Every statement of the property then holds at full strength: the side conditions left are unique numbers, the
-   class / arity fixed by the mnemonic, displacement vectors of equal length (always three) and, for leaves,
-   cell.surfaces covering the leaves - which the call now preserves, so it can be repeated. *)
-Theorem C18_fx_only_true_duplicates : forall tol P del m,
-  wf P -> Forall class_ok (p_surfs P) -> disp_uniform (p_surfs P) ->
-  scan_fx tol (p_surfs P) = Ok (del, m) ->
-  forall d s sd ss, lookup d m = Some s ->
-    In sd (p_surfs P) -> In ss (p_surfs P) -> s_num sd = d -> s_num ss = s -> true_dup tol ss sd.
-Proof. exact fx_only_true_duplicates. Qed.
-Print Assumptions C18_fx_only_true_duplicates.
-
-Theorem C18_fx_region : forall tol P P' del m,
-  scan_fx tol (p_surfs P) = Ok (del, m) -> dedup_fx tol P = Ok P' ->
-  Forall2 (fun c c' =>
-             c_num c' = c_num c /\ shape (c_geom c') = shape (c_geom c) /\
-             forall es ec, identifies m es -> region es ec (c_geom c') = region es ec (c_geom c))
-          (p_cells P) (p_cells P').
-Proof. exact fx_region. Qed.
-Print Assumptions C18_fx_region.
-
-Theorem C18_fx_surfaces : forall tol P P' del m,
-  wf P -> scan_fx tol (p_surfs P) = Ok (del, m) -> dedup_fx tol P = Ok P' ->
   p_surfs P' = filter (fun s => negb (memZ (s_num s) del)) (map (repoint_periodic m) (p_surfs P)) /\
   (forall s, s_perptr s = 0 \/ lookup (s_perptr s) m = None -> repoint_periodic m s = s) /\
   map s_num (p_surfs P') = filter (fun n => negb (memZ n del)) (map s_num (p_surfs P)).
-Proof. exact fx_surfaces. Qed.
-Print Assumptions C18_fx_surfaces.
+Proof. exact surfaces_after_call. Qed.
+Print Assumptions C18_surfaces.
 
-Theorem C18_fx_no_dangling_leaf : forall tol P P' del m,
+Theorem C18_removed_are_gone : forall tol P P' del m,
+  wf P -> scan tol (p_surfs P) = Ok (del, m) -> dedup tol P = Ok P' ->
+  forall s', In s' (p_surfs P') -> ~ In (s_num s') del.
+Proof. exact removed_are_gone. Qed.
+Print Assumptions C18_removed_are_gone.
+
+(* ------------------------------------------------------------------ 6. no reference to a removed surface remains *)
+Theorem C18_no_dangling_leaf : forall tol P P' del m,
   wf P -> links P -> Forall class_ok (p_surfs P) -> disp_uniform (p_surfs P) ->
-  scan_fx tol (p_surfs P) = Ok (del, m) -> dedup_fx tol P = Ok P' ->
+  scan tol (p_surfs P) = Ok (del, m) -> dedup tol P = Ok P' ->
   links P' /\
   forall c', In c' (p_cells P') -> forall n, In n (leaf_surfs (c_geom c')) -> ~ In n del.
-Proof. exact fx_no_dangling_leaf. Qed.
-Print Assumptions C18_fx_no_dangling_leaf.
+Proof. exact no_dangling_leaf. Qed.
+Print Assumptions C18_no_dangling_leaf.
 
-Theorem C18_fx_no_dangling_periodic : forall tol P P' del m,
+Theorem C18_no_dangling_periodic : forall tol P P' del m,
   wf P -> Forall class_ok (p_surfs P) -> disp_uniform (p_surfs P) ->
   (forall s, In s (p_surfs P) -> s_perptr s = 0 \/ In (s_perptr s) (map s_num (p_surfs P))) ->
-  scan_fx tol (p_surfs P) = Ok (del, m) -> dedup_fx tol P = Ok P' ->
+  scan tol (p_surfs P) = Ok (del, m) -> dedup tol P = Ok P' ->
   forall s', In s' (p_surfs P') -> s_perptr s' = 0 \/ In (s_perptr s') (map s_num (p_surfs P')).
-Proof. exact fx_no_dangling_periodic. Qed.
-Print Assumptions C18_fx_no_dangling_periodic.
+Proof. exact no_dangling_periodic. Qed.
+Print Assumptions C18_no_dangling_periodic.
 
-Theorem C18_fx_completes : forall tol P, disp_uniform (p_surfs P) -> exists P', dedup_fx tol P = Ok P'.
-Proof. exact fx_completes. Qed.
-Print Assumptions C18_fx_completes.
+(* every hypothesis used above holds again for the problem the call leaves: it can be repeated (with another
+   tolerance) and all of the above applies to the second call *)
+Theorem C18_repeatable : forall tol P P' del m,
+  wf P -> links P -> Forall class_ok (p_surfs P) -> disp_uniform (p_surfs P) ->
+  scan tol (p_surfs P) = Ok (del, m) -> dedup tol P = Ok P' ->
+  wf P' /\ links P' /\ Forall class_ok (p_surfs P') /\ disp_uniform (p_surfs P').
+Proof. exact invariants_kept. Qed.
+Print Assumptions C18_repeatable.
 
-(* the witnesses of the refuted theorems under the repaired code: nothing is merged, nothing dangles, the edited
-   pointer stays, the call returns; the true duplicates of the example are merged as before *)
-Example C18_fx_witnesses :
-  scan_fx tol4 (p_surfs w_bc) = Ok ([], []) /\ scan_fx tol4 (p_surfs w_per) = Ok ([], []) /\
-  scan_fx tol4 (p_surfs w_rot) = Ok ([], []) /\ scan_fx tol4 (p_surfs w_dangle) = Ok ([2], [(2, 1)]) /\
-  dedup_fx tol4 w_revert = Ok w_revert /\ scan_fx tol4 (p_surfs w_index) = Ok ([], []) /\
-  scan_fx tol4 (p_surfs ex_prob) = Ok (ex_del, ex_map) /\
+(* ------------------------------------------------------------------ 7. the call returns *)
+Theorem C18_completes : forall tol P, disp_uniform (p_surfs P) -> exists P', dedup tol P = Ok P'.
+Proof. exact dedup_completes. Qed.
+Print Assumptions C18_completes.
+
+(* ------------------------------------------------------------------ non-vacuity *)
+(* the example problem (12 surfaces: the chain 1~2~3 without 1~3, exact duplicates, look-alike transforms, c/z family,
+   never-merged SO pair; 4 cells sharing them) satisfies every hypothesis, and the call does something on it:
+   the entry 2 -> 1 is overwritten by 2 -> 3 *)
+Example C18_hypotheses_nonvacuous :
+  wf ex_prob /\ links ex_prob /\ Forall class_ok (p_surfs ex_prob) /\ disp_uniform (p_surfs ex_prob) /\
+  (forall s, In s (p_surfs ex_prob) -> s_perptr s = 0 \/ In (s_perptr s) (map s_num (p_surfs ex_prob))) /\
+  scan tol4 (p_surfs ex_prob) = Ok ([2; 5; 9; 11], [(2, 3); (5, 4); (9, 8); (11, 10)]).
+Proof.
+  exact (conj ex_wf (conj ex_links (conj ex_class_ok (conj ex_disp_uniform (conj ex_perptr ex_scan_head))))).
+Qed.
+Print Assumptions C18_hypotheses_nonvacuous.
+
+Example C18_region_nonvacuous :
+  (dedup tol4 ex_prob = Ok ex_after_head /\
+   map s_num (p_surfs ex_after_head) = [1; 3; 4; 6; 7; 8; 10; 12] /\ p_cells ex_after_head = ex_after_cells_head /\
+   map (fun c => region ex_es (fun _ => false) (c_geom c)) ex_after_cells_head = [true; false; true; false]) /\
+  identifies ex_map ex_es /\
+  map (fun c => region ex_es (fun _ => false) (c_geom c)) ex_cells = [true; false; true; false].
+Proof. exact (conj ex_dedup_head (conj ex_identifies (proj1 ex_regions))). Qed.
+Print Assumptions C18_region_nonvacuous.
+
+(* the inputs on which the code failed before the three commits, now: nothing wrong is merged (boundary condition,
+   periodic, rotated transform), the asymmetric chain merges only the true duplicate, an edited pointer stays, rotation
+   matrices of different length raise nothing *)
+Example C18_repaired_witnesses :
+  scan tol4 (p_surfs w_bc) = Ok ([], []) /\ scan tol4 (p_surfs w_per) = Ok ([], []) /\
+  scan tol4 (p_surfs w_rot) = Ok ([], []) /\ scan tol4 (p_surfs w_dangle) = Ok ([2], [(2, 1)]) /\
+  dedup tol4 w_revert = Ok w_revert /\ scan tol4 (p_surfs w_index) = Ok ([], []) /\
+  scan tol4 (p_surfs ex_prob) = Ok (ex_del, ex_map) /\
   disp_uniform (p_surfs ex_prob) /\ disp_uniform (p_surfs w_index).
-Proof. exact fx_witnesses. Qed.
-Print Assumptions C18_fx_witnesses.
+Proof. exact repaired_witnesses. Qed.
+Print Assumptions C18_repaired_witnesses.
